@@ -689,6 +689,9 @@ class EngineWorld:
                     key = f"{s['name']}_{getattr(ev, 'path', '')}"
                     await ctx.store.set("d." + key, True)
                     self.trace.log("pset", step=s["name"], key=key, inv=rec["inv"], run=rec["run"])
+                elif op == "psetk":
+                    await ctx.store.set("d." + act[1], True)
+                    self.trace.log("pset", step=s["name"], key=act[1], inv=rec["inv"], run=rec["run"])
                 elif op == "hset":
                     fe = ev
                     key = f"h_{getattr(fe.input_event, 'path', '')}"
@@ -730,7 +733,7 @@ class EngineWorld:
         try:
             script = s["scripts"].get(ev_desc(ev)) or s["scripts"].get("*") or [("ret", None)]
             for act in script:
-                if act[0] in ("work", "sleep", "wait", "pset", "pstop", "hset", "streamloop", "stall"):
+                if act[0] in ("work", "sleep", "wait", "pset", "psetk", "pstop", "hset", "streamloop", "stall"):
                     continue
                 done, result = self._act(s, ctx, ev, rec, act)
                 if done is not None:
